@@ -27,7 +27,7 @@ OPS = [(X, F('f', Y)), (Y, a), (X, Y), (Y, F('g', Z)), (Z, b)]
 ASSERTS = [F('p', X), F('p', F('f', Y)), F('p', ('v', ('_', 1))), F('p', F('g', X, Y)), F('p', F('g', Y, Y)),
            F('p', F('.', a, Y))]      # a partial list [a|Y]: the variable is the TAIL of a list cell
 CONTS = ['true', 'use', 'fail']
-USES = ['pa', 'pb', 'pfb', 'pgab', 'pgaa', 'twice', 'double', 'gdouble', 'enum']
+USES = ['pa', 'pb', 'pfb', 'pgab', 'pgaa', 'twice', 'double', 'gdouble', 'enum', 'kept']
 UCLAUSE = (F('u', V('A'), V('B')), conj(call(F('p', V('A'))), call(F('p', V('B'))), call(F('=', V('A'), a)), call(F('=', V('B'), b))))
 # a use of the fact followed by a goal that binds what the use left open, in several ways (backtracking
 # into that goal must undo its binding also inside the variables that came from the fact)
@@ -58,7 +58,7 @@ def use_sequences():
     out += [(u,) for u in USES]
     # every use followed by each of three "probing" uses (a ground call, the clause using the fact
     # twice, two suspended enumerations)
-    out += [(u1, u2) for u1 in ('pa', 'pfb', 'twice', 'double') for u2 in ('pa', 'twice', 'double', 'gdouble', 'enum')]
+    out += [(u1, u2) for u1 in ('pa', 'pfb', 'twice', 'double') for u2 in ('pa', 'twice', 'double', 'gdouble', 'enum')] + [('enum', 'kept')]
     return out
 
 
@@ -114,6 +114,33 @@ def do_use(w, use, is_ref):
             w.close(h1)
             obs.append((n1, n2, n1b))
         return ('gdouble', tuple(obs))
+    if use == 'kept':
+        # the value of an answer is KEPT by the caller after the use has ended (what findall, a result
+        # list, evaluate_bounded do); later uses of the fact - bound to a, to b, to f(b) - must not show
+        # in the kept value: the variables that left with it belong to it
+        if is_ref:
+            n = 0
+            h = w.start(F('p', qa))
+            while w.step(h) and n < 30:
+                n += 1
+            return ('kept', n, 'unchanged')
+        kept = []
+        h = w.start(F('p', qa))
+        while w.step(h) and len(kept) < 30:
+            kept.append(impl.engine.get_value(w.term(qa)))
+        from .c15 import raws
+        before = raws(kept)
+        changed = 'unchanged'
+        for g in (F('p', a), F('p', b), F('p', F('f', b)), F('p', F('g', a, b)), F('p', F('.', a, F('.', b, A('[]'))))):
+            h2 = w.start(g)
+            while w.step(h2):
+                if raws(kept) != before:
+                    changed = 'a later use %s changed the kept values %r into %r' % (show_term(g), before, raws(kept))
+                    break
+            w.close(h2)
+            if changed != 'unchanged':
+                break
+        return ('kept', len(kept), changed)
     if use == 'double':
         # two simultaneously suspended enumerations of the same facts, bound differently
         obs = []
